@@ -275,6 +275,30 @@ fn c23mem() {
     if ja != jb { let p = ja.iter().zip(jb.iter()).position(|(x,y)| x != y).unwrap(); println!("C23mem first difference at {}: {:?} vs {:?}", p, String::from_utf8_lossy(&ja[p.saturating_sub(20)..(p+40).min(ja.len())]), String::from_utf8_lossy(&jb[p.saturating_sub(20)..(p+40).min(jb.len())])); }
 }
 
+fn c27rec() {
+    // committed memory cards, then an un-committed put, then a process crash: does open-time recovery keep the cards?
+    let dir = tempfile::tempdir().unwrap();
+    let p = dir.path().join("a.mv2");
+    let mut m = Memvid::create(&p).unwrap();
+    m.put_bytes(b"some committed document").unwrap();
+    let c = MemoryCardBuilder::new().fact().entity("user").slot("location").value("Paris").document_date(500).source(0, None).engine("triage","1").build(0).unwrap();
+    m.put_memory_card(c).unwrap();
+    m.commit().unwrap();
+    println!("C27rec committed: current memory = {:?}", m.get_current_memory("user","location").map(|c| c.value.clone()));
+    drop(m);
+    { let m = Memvid::open_read_only(&p).unwrap(); println!("C27rec reopened (no recovery needed): current memory = {:?}", m.get_current_memory("user","location").map(|c| c.value.clone())); }
+    let mut m = Memvid::open(&p).unwrap();
+    m.put_bytes(b"a later document that is acknowledged but not committed").unwrap();
+    let crash = dir.path().join("crash.mv2");
+    std::fs::copy(&p, &crash).unwrap();
+    std::mem::forget(m);
+    let m2 = Memvid::open(&crash).unwrap();
+    println!("C27rec after crash recovery: frames = {}, current memory = {:?}", m2.frame_count(), m2.get_current_memory("user","location").map(|c| c.value.clone()));
+    drop(m2);
+    let m3 = Memvid::open_read_only(&crash).unwrap();
+    println!("C27rec recovered file reopened: current memory = {:?}", m3.get_current_memory("user","location").map(|c| c.value.clone()));
+}
+
 fn c32() {
     let dir = tempfile::tempdir().unwrap();
     let p = dir.path().join("a.mv2");
@@ -492,5 +516,5 @@ fn c08() {
 
 fn main() {
     let which = std::env::args().nth(1).unwrap_or_default();
-    match which.as_str() { "c05"=>c05(), "c26"=>c26(), "c20"=>c20(), "c20blob"=>c20blob(), "c07"=>c07(), "c39"=>c39(), "c19"=>c19(), "c02growth"=>c02growth(), "c04"=>c04(), "c23mem"=>c23mem(), "c20wal"=>c20wal(), "c26replay"=>c26replay(), "c18replay"=>c18replay(), "c02replay"=>c02replay(), "c32"=>c32(), "c11"=>c11(), "c17"=>c17(), "c08"=>c08(), "c29"=>c29(), "c14"=>c14(), "c09"=>c09(), "c18"=>c18(), "c23"=>c23(), "c16"=>c16(), "c40"=>c40(), "c24"=>c24(), "c15"=>c15(), "c22"=>c22(), _=>{ c05(); c26(); c20(); c11(); c17(); } }
+    match which.as_str() { "c05"=>c05(), "c26"=>c26(), "c20"=>c20(), "c20blob"=>c20blob(), "c07"=>c07(), "c39"=>c39(), "c19"=>c19(), "c02growth"=>c02growth(), "c04"=>c04(), "c27rec"=>c27rec(), "c23mem"=>c23mem(), "c20wal"=>c20wal(), "c26replay"=>c26replay(), "c18replay"=>c18replay(), "c02replay"=>c02replay(), "c32"=>c32(), "c11"=>c11(), "c17"=>c17(), "c08"=>c08(), "c29"=>c29(), "c14"=>c14(), "c09"=>c09(), "c18"=>c18(), "c23"=>c23(), "c16"=>c16(), "c40"=>c40(), "c24"=>c24(), "c15"=>c15(), "c22"=>c22(), _=>{ c05(); c26(); c20(); c11(); c17(); } }
 }
